@@ -262,6 +262,10 @@ class NamedGlob:
             path = Path(path)
             if path.is_dir():
                 path = path / ""
+            elif not (path.exists() or path.islink()):
+                # As of CPython 3.12, `glob` yields the directory in front of a trailing `**`
+                # without checking that it exists.
+                continue
             paths.append(path)
         self.extend(paths)
 
